@@ -42,7 +42,7 @@ func protoRunFull(p *Prog, fn *ssa.Function, structPoints bool, contracts map[st
 			setProtoCurve(P, N)
 		}
 	})
-	d := &protoDom{e: e, globals: map[string]func(st *sState) sVal{}, structPoints: structPoints, glue: contracts != nil, contracts: contracts, gOK: map[string]int{}, gBad: map[string][]string{}, stream: protoStreamMode}
+	d := &protoDom{e: e, globals: map[string]func(st *sState) sVal{}, structPoints: structPoints, glue: contracts != nil, contracts: contracts, gOK: map[string]int{}, gBad: map[string][]string{}, stream: protoStreamMode, readHelpers: map[string]string{}}
 	e.proto = d
 	st := newSState()
 	st.gcells = map[string]int{}
